@@ -316,7 +316,10 @@ func runEntries(ctx *RunCtx) error {
 		ctx.Reports = append(ctx.Reports, rep)
 		fmt.Fprint(os.Stderr, rep.Summary())
 		if rep.Ends["engine-fatal"] > 0 {
-			return fmt.Errorf("engine failure in %s: %s", e.Func, rep.EndMsgs["engine-fatal"])
+			// the executor met a program shape it cannot run (typically library calls without a model):
+			// nothing is decided for these paths — inconclusive, never a verdict and never a crash of
+			// the check
+			ctx.Inconcl = append(ctx.Inconcl, fmt.Sprintf("%s: %d path(s) could not be executed (executor failure: %s)", e.Func, rep.Ends["engine-fatal"], firstLines(rep.EndMsgs["engine-fatal"], 1)))
 		}
 		handleReport(ctx, e, rep)
 		validateWitnesses(ctx, e, rep)
@@ -375,12 +378,19 @@ func handleReport(ctx *RunCtx, e Entry, rep *engine.Report) {
 		if detail != "" {
 			vo.Detail = detail
 		}
-		if !ok && e.Replay == "race" {
-			// lock-monitor obligations (critical-section count, release on every exit, accesses under
-			// the guard) have no native observable other than a race the scheduler happens to
-			// exhibit: the monitor's counterexample stands on its own
+		if !ok && e.Replay == "race" && strings.HasPrefix(v.Label, "conc/") {
+			// outcome of the scheduler exploration (happens-before race, non-linearizable result): the
+			// interleaving is a counterexample by itself, whether or not the native run hits it
 			vo.Reproduced = true
-			vo.Detail = "lock-monitor counterexample (the native -race run did not exhibit it): " + v.Detail
+			vo.Detail = "scheduler counterexample (the native -race run did not exhibit it): " + v.Detail
+		} else if !ok && e.Replay == "race" {
+			// a lock-discipline verification condition failed but neither the race detector nor the
+			// scheduler harness confirms a misbehaviour: the VCs are sufficient, not necessary, for
+			// the property (a correct lock-free or finer-grained implementation fails them too), so
+			// this is reported as inconclusive, not as a violation
+			ctx.Inconcl = append(ctx.Inconcl, fmt.Sprintf("%s: lock-discipline condition %s fails (%s) but no misbehaviour was confirmed natively under -race; see the scheduler harness of this check", e.Func, v.Label, v.Detail))
+			ctx.Replays++
+			continue
 		}
 		ctx.Replays++
 		ctx.Violations = append(ctx.Violations, vo)
